@@ -1,4 +1,5 @@
 import PoolModel.Generated.C18Facts
+import PoolModel.Generated.C18Sem
 /-! # C18 — auctioneer subscriptions: handshake algebra, reconnect backoff, error-channel switch
 
 Executable model (core Lean only) of
@@ -98,25 +99,20 @@ def connLoop (minB maxB : Int) : (remaining : Nat) → (fails : Nat) → (backof
 def connect (initB minB maxB : Int) (numRetries fails : Nat) : ConnRes :=
   if numRetries = 0 then ⟨[], [], true⟩ else connLoop minB maxB numRetries fails initB
 
-/-- the value a printed argument list of a `connectServerStream(initialBackoff, numRetries)` call denotes, given the
-configured minimum and the regenerated constant `reconnectRetries` (argument lists are regenerated from the source:
-`Pool.Gen.C18.firstConnectArgs`, `Pool.Gen.C18.reconnectArgs`) -/
-def connectArgsOf (args : String) (minB : Int) : Option (Int × Nat) :=
-  if args = "c.cfg.MinBackoff, reconnectRetries" then some (minB, Pool.Gen.C18.reconnectRetries)
-  else if args = "0, reconnectRetries" then some (0, Pool.Gen.C18.reconnectRetries)
-  else none
+/-- the value the first argument of a `connectServerStream(initialBackoff, numRetries)` call denotes, as the fact
+extractor prints it (`Pool.Gen.C18Sem.firstConnectInit`, `reconnectInit`: `"MIN"` = `c.cfg.MinBackoff`) -/
+def initOf (sym : String) (minB : Int) : Option Int :=
+  if sym = "MIN" then some minB else if sym = "0" then some 0 else none
 
-/-- the reconnect of `HandleServerShutdown` as the source spells it now -/
+/-- the reconnect of `HandleServerShutdown` as the source calls it now -/
 def reconnect (minB maxB : Int) (fails : Nat) : Option ConnRes :=
-  match Pool.Gen.C18.reconnectArgs with
-  | [a] => (connectArgsOf a minB).map fun p => connect p.1 minB maxB p.2 fails
-  | _ => none
+  (initOf Pool.Gen.C18Sem.reconnectInit minB).map fun i =>
+    connect i minB maxB Pool.Gen.C18Sem.reconnectRetriesArg fails
 
-/-- the first connect of `connectAndAuthenticate` as the source spells it now -/
+/-- the first connect of `connectAndAuthenticate` as the source calls it now -/
 def firstConnect (minB maxB : Int) (fails : Nat) : Option ConnRes :=
-  match Pool.Gen.C18.firstConnectArgs with
-  | [a] => (connectArgsOf a minB).map fun p => connect p.1 minB maxB p.2 fails
-  | _ => none
+  (initOf Pool.Gen.C18Sem.firstConnectInit minB).map fun i =>
+    connect i minB maxB Pool.Gen.C18Sem.firstConnectRetries fails
 
 /-! ## auctioneer/err_chan_switch.go
 
